@@ -469,7 +469,30 @@ func c07R2(c *Check) {
 				c.Obl(okQ && okH, "C07.R2", key, where, "whole input returned only when neither '?' nor '#' was found",
 					"the whole input is returned as the path without the facts index('?') == -1 and index('#') == -1")
 			case *ssa.Slice:
-				if x.X != in || x.Low != nil || x.High == nil {
+				// a prefix of a prefix of the input is a prefix of the input (`p := s; if h != -1 { p = s[:h] }; p[:q]`)
+				var prefixOfInput func(v ssa.Value, d int) bool
+				prefixOfInput = func(v ssa.Value, d int) bool {
+					v = resolveCell(stripConv(v))
+					if v == ssa.Value(in) {
+						return true
+					}
+					if d == 0 {
+						return false
+					}
+					switch y := v.(type) {
+					case *ssa.Slice:
+						return y.Low == nil && prefixOfInput(y.X, d-1)
+					case *ssa.Phi:
+						for _, e := range y.Edges {
+							if !prefixOfInput(e, d-1) {
+								return false
+							}
+						}
+						return len(y.Edges) > 0
+					}
+					return false
+				}
+				if !prefixOfInput(x.X, 3) || x.Low != nil || x.High == nil {
 					c.Fail("C07.R2", key, where, "path result "+descDepth(v, 3)+" is not a prefix slice of the input")
 					continue
 				}
